@@ -29,9 +29,10 @@ from props import c04_docs as D
 from props import c04_history as H
 from props import c04_legacy as LG
 from props import c04_oracle as O
+from props import c04_values as V
 from run import Broken, Violation
 
-GEN = ["Iface", "PyDataTypes"]
+GEN = ["Iface", "PyDataTypes", "IfaceTotal"]
 RULE = ("tables: empty / rectangular / ragged / with empty rows, per table class; images: payload sizes 0..4096 x "
         "consumed prefix, per image class; paths: None, relative, absolute, //, ///, dot segments, trailing slash, "
         "unicode, archive!/member, existing files / symlinks, over-long names, NUL; RTF escape texts: valid \\uN? / "
@@ -46,7 +47,10 @@ RULE = ("tables: empty / rectangular / ragged / with empty rows, per table class
         "x read order x one stream closed, collected first and read afterwards, against the heap model; generated DOCX / PPTX / XLSX / "
         "ODT / ODP / ODS / ODG / EPUB / HTML documents in which one picture file is placed several times (same unit, other units) and "
         "every optional text-bearing element / attribute of picture frames, units and document properties is independently absent / "
-        "present-but-empty / white space / text. "
+        "present-but-empty / white space / text; values converted when the caller asks: the lexical space of a length as a file may "
+        "spell it (digits of any script / hundreds of digits, dangling fraction, units the library converts or not, white space of all "
+        "of \\s, junk) against the Lean scanner + unit dispatch (c04.length) and planted as svg:width / svg:height / img width / height "
+        "into the generated documents. "
         "distinct = distinct (component, input) pairs; non-trivial = non-empty input")
 ASSUMPTIONS = [
     "pathlib.PurePosixPath / os.path.exists / os.path.realpath are the stdlib's (modelled in S2T/Model/Iface.lean, tied here)",
@@ -56,6 +60,11 @@ ASSUMPTIONS = [
     "that no accessor raises and that fields hold their declared types is shown only on the results explored here",
     "io.BytesIO object semantics (tell / read / seek(0) / close, one position per object) — the heap model of S2T/Model/IfaceStreams.lean is tied here (c04.collect)",
     "xml.etree.ElementTree: `.text` of an element that is present but empty is None (the three states of S2T/Model/IfaceOptText.lean)",
+]
+ASSUMPTIONS += [
+    "float() / math.isfinite / round of the running interpreter are the host of S2T/Model/IfaceLength.lean (finiteness and pixel count supplied per case)",
+    "the guards recognised syntactically by tools/gen/iface_total.py (test of the container / match object on the path, earlier early-exit, try, default argument, "
+    "math.isfinite early-exit) do protect the operation they are attached to",
 ]
 TRUSTED = ["model of data_types accessors, PurePosixPath, RTF \\uN decoding in S2T/Model/Iface.lean",
            "tools/gen/iface.py (AST data-flow classification of the constructor call sites; origin of the payload object per site; "
@@ -474,9 +483,20 @@ def _doc_specs(ctx):
         if not ctx.thorough:     # the two placement documents always; a seed-dependent third of the one-at-a-time grid
             fixed = fixed[:2] + [s_ for i, s_ in enumerate(fixed[2:]) if (i + ctx.seed) % 3 == 0]
         out += fixed
+        if fmt in D.VALUE_FORMATS:   # sizes as the file spells them: every lexical class, in every format that stores them
+            forms = [f for f in V.LENGTH_FORMS if V.xml_safe(f)]
+            out += D.value_specs(fmt, forms, per_doc=12 if ctx.thorough else 24)
         for _ in range(ctx.n(12, 300)):
-            out.append(D.random_spec(rng, fmt))
+            out.append(D.random_spec(rng, fmt, _xml_length))
     return out
+
+
+def _xml_length(rng):
+    for _ in range(20):
+        s_ = V.random_length(rng)
+        if V.xml_safe(s_) and len(s_) < 2000:
+            return s_
+    return "2cm"
 
 
 def _check_docs(ctx, violations):
@@ -1247,6 +1267,7 @@ def correspondence(ctx):
     _check_paths(ctx, broken)
     _check_unicode(ctx, broken)
     _check_readers(ctx, broken)
+    V.check_lengths(ctx, broken)
     _check_results(ctx, violations, broken)
     _check_docs(ctx, violations)
     _check_default_sites(ctx, violations)
@@ -1290,6 +1311,8 @@ def _direct_oracle(ctx, b):
                           {"kind": "collect", "cls": c["cls"], "sources": c["sources"], "order": c["order"], "close": c.get("close")}) for m in msgs[:1]]
     if comp == "path":
         return _path_oracle(c.get("path"))
+    if comp == "length":
+        return _length_oracle(c.get("s"))
     if comp == "blip":
         recs = LG.from_json(c["records"])
         st, found, _ = _blip_doc_findings(c["container"], recs)
@@ -1299,6 +1322,30 @@ def _direct_oracle(ctx, b):
         return [Violation("history:" + k, f"history ({len(c['ops'])} operations in one process): {what}"[:400], {"kind": "history", "ops": c["ops"]})
                 for k, what in found[:1]]
     return []
+
+
+def _length_findings(s_):
+    """the statement on an ODF picture object holding the stored size string (no extractor involved)"""
+    im = _dt().OpenDocumentImage(href="Pictures/a.png", name="a", content_type="image/png", data=io.BytesIO(b"\x89PNG"), size_bytes=4,
+                                 width=s_, height=s_, image_index=1)
+    w = O.Walk(None)
+    w.image("OpenDocumentImage(width=%r)" % (s_ if s_ is None or len(s_) < 40 else s_[:16] + "…"), im)
+    return w.out
+
+
+def _length_oracle(s_):
+    """a stored size string the model and the code disagree on: judged on the results of the real extractors for
+    generated documents carrying it, then on the image object itself"""
+    out = []
+    if s_ is not None and V.xml_safe(s_):
+        for fmt in ("odg", "odt", "ods", "odp"):
+            spec = V.doc_spec_for(s_, fmt)
+            st, found, name, blob = _doc_findings(spec)
+            out += [Violation(k, f"generated {D.shape(spec)} whose picture frame is {('svg:width=' + repr(s_))[:80]}: {what}"[:400], {"kind": "doc", "spec": spec})
+                    for k, what in found[:1]]
+            if out:
+                return out
+    return [Violation(k, what[:400], {"kind": "length", "s": s_}) for k, what in _length_findings(s_)[:1]]
 
 
 def _path_oracle(p):
@@ -1418,6 +1465,9 @@ def replay(ctx, payload):
     if kind == "history":
         _, found = _history_findings(rep["ops"])
         return (not found), "; ".join(w for _, w in found)[:600] or "every call of the history reports metadata derived from its own path argument"
+    if kind == "length":
+        found = _length_findings(rep.get("s"))
+        return (not found), "; ".join(w for _, w in found)[:600] or "every accessor of the image holding the stored size returns"
     if kind == "path":
         vs = _path_oracle(rep.get("path"))
         return (not vs), "; ".join(v.what for v in vs) or "metadata derived from the path as pathlib defines it"
